@@ -1,0 +1,26 @@
+//go:build verif
+
+package sdf
+
+import "sort"
+
+// Hooks for the C18 check (screw threads). Read-only accessors, no behaviour change.
+
+// VerifThreadNames returns the keys of the thread database in sorted order.
+func VerifThreadNames() []string {
+	names := make([]string, 0, len(threadDB))
+	for k := range threadDB {
+		names = append(names, k)
+	}
+	sort.Strings(names)
+	return names
+}
+
+// VerifScrewFields returns the private fields of a screw (ok is false if s is not a *ScrewSDF3).
+func VerifScrewFields(s SDF3) (pitch, lead, halfLength, taper float64, ok bool) {
+	x, ok := s.(*ScrewSDF3)
+	if !ok {
+		return 0, 0, 0, 0, false
+	}
+	return x.pitch, x.lead, x.length, x.taper, true
+}
